@@ -1,4 +1,5 @@
 import Proofs.HpMutPop
+import Proofs.HpMutGenEq
 
 /-!
 # C06 — hyperparameter mutation stays in its configured range and takes effect
@@ -234,6 +235,99 @@ theorem C06_stays_in_range (ps : List Param) (hps : ∀ p ∈ ps, p.lo ≤ p.hi)
   obtain ⟨a0, ha0, rfl⟩ := hb
   exact h0 a0 ha0
 
+/-! ## the same theorems over the definitions translated from the source text
+
+`harness/py2lean_hpmut.py` translates `RLParameter.mutate` and `HyperparameterConfig.sample` of
+`agilerl/algorithms/core/registry.py` (the tree under test) into `Gen/HpMutGen.lean` before every run
+of the gate; `Proofs/HpMutGenEq.lean` proves the generated definitions equal to `mutate1` / `sample`.
+`RLParameter.mutate min max shrink grow dtype value rand0` is the method with the six dataclass fields
+and the draw `torch.rand(1).item()` as arguments; it returns `(returned value, self.value afterwards)`,
+`none` = the assertion `self.value is not None` fails.  `HyperparameterConfig.sample config perm0`
+takes the dict as an association list and the draw `torch.randperm(len(config))`.  The statements
+below mention the generated functions only, so a change of the source that alters their meaning
+breaks them. -/
+section source_translation
+open HpMutGen
+
+/-- every generated definition equals the hand-written model function, for all inputs -/
+theorem C06_source_translation_equalities (lo hi sh gr : Rat) (d : DType) (coin : Rat)
+    {κ ν : Type} (cfg : List (κ × ν)) (perm : List Nat) :
+    (∀ v, RLParameter.mutate lo hi sh gr (toGen d) (some v) coin =
+      some (mutate1 ⟨lo, hi, sh, gr, d⟩ v coin, some (mutate1 ⟨lo, hi, sh, gr, d⟩ v coin))) ∧
+    RLParameter.mutate lo hi sh gr (toGen d) none coin = none ∧
+    (∀ q, (toGen d).apply q = cast d q) ∧
+    (∀ a b, HpMutGen.pyMin a b = HpMut.pyMin a b) ∧ (∀ a b, HpMutGen.pyMax a b = HpMut.pyMax a b) ∧
+    HyperparameterConfig.sample cfg perm =
+      (if perm.length = cfg.length then (sample cfg.length perm).bind (fun k => cfg[k]?) else none) :=
+  ⟨fun v => gen_mutate_eq' lo hi sh gr d v coin, gen_mutate_none ⟨lo, hi, sh, gr, d⟩ coin,
+   gen_apply_eq d, gen_pyMin_eq, gen_pyMax_eq, gen_sample_eq cfg perm⟩
+
+/-- `C06_is_scaled_clipped` over the translated method: for every value, bounds, factors, number
+    type and draw it returns (and stores) the value times the chosen factor, clamped, converted -/
+theorem C06_source_translation_is_scaled_clipped (lo hi sh gr : Rat) (d : DType) (v coin : Rat) :
+    RLParameter.mutate lo hi sh gr (toGen d) (some v) coin =
+      some ((toGen d).apply (min (max (v * (if coin < 1/2 then sh else gr)) lo) hi),
+            some ((toGen d).apply (min (max (v * (if coin < 1/2 then sh else gr)) lo) hi))) := by
+  rw [gen_mutate_eq', C06_is_scaled_clipped, gen_apply_eq]
+
+/-- `C06_in_range` over the translated method (`dtype = float`) -/
+theorem C06_source_translation_in_range (lo hi sh gr v coin : Rat) (hb : lo ≤ hi) :
+    ∃ r, RLParameter.mutate lo hi sh gr .float (some v) coin = some (r, some r) ∧ lo ≤ r ∧ r ≤ hi :=
+  ⟨_, gen_mutate_eq' lo hi sh gr .float v coin, C06_in_range ⟨lo, hi, sh, gr, .float⟩ v coin hb rfl⟩
+
+/-- `C06_in_range_int` over the translated method (`dtype = int`; `pyInt` is Python's `int()`) -/
+theorem C06_source_translation_in_range_int (lo hi sh gr v coin : Rat) (hb : lo ≤ hi) :
+    ∃ z : Int, RLParameter.mutate lo hi sh gr .int (some v) coin = some ((z : Rat), some (z : Rat)) ∧
+      pyInt lo ≤ z ∧ z ≤ pyInt hi ∧
+      ((lo ≤ 0 ∨ ∃ m : Int, lo = m) → lo ≤ (z : Rat)) ∧
+      ((0 ≤ hi ∨ ∃ m : Int, hi = m) → (z : Rat) ≤ hi) ∧
+      lo - 1 < (z : Rat) ∧ (z : Rat) < hi + 1 := by
+  obtain ⟨z, hz, h⟩ := C06_in_range_int ⟨lo, hi, sh, gr, .int⟩ v coin hb rfl
+  refine ⟨z, ?_, h⟩
+  have := gen_mutate_eq' lo hi sh gr .int v coin
+  rw [hz] at this
+  exact this
+
+/-- drift: feeding `self.value` back through the translated method any number of times (one draw
+    per generation) keeps a float hyperparameter in `[min, max]` — from ANY start value -/
+theorem C06_source_translation_stays_in_range (lo hi sh gr : Rat) (hb : lo ≤ hi) (coins : List Rat)
+    (hne : coins ≠ []) (v : Rat) :
+    ∃ r, coins.foldl (fun val c => (RLParameter.mutate lo hi sh gr .float val c).bind (·.2)) (some v)
+        = some r ∧ lo ≤ r ∧ r ≤ hi := by
+  induction coins generalizing v with
+  | nil => exact absurd rfl hne
+  | cons c cs ih =>
+    obtain ⟨r, hr, h1, h2⟩ := C06_source_translation_in_range lo hi sh gr v c hb
+    simp only [List.foldl_cons, hr, Option.bind_some]
+    cases cs with
+    | nil => exact ⟨r, rfl, h1, h2⟩
+    | cons c' cs' => exact ih (by simp) r
+
+/-- `C06_sample_is_configured` over the translated method: what it returns is the entry of the
+    configuration at the head of the permutation, a valid index -/
+theorem C06_source_translation_sample_is_configured {κ ν : Type} (cfg : List (κ × ν)) (perm : List Nat)
+    (name : κ) (param : ν) (h : HyperparameterConfig.sample cfg perm = some (name, param)) :
+    ∃ k, k < cfg.length ∧ perm.head? = some k ∧ cfg[k]? = some (name, param) := by
+  rw [gen_sample_eq] at h
+  split at h
+  · cases hs : sample cfg.length perm with
+    | none => rw [hs] at h; cases h
+    | some k =>
+      rw [hs] at h
+      obtain ⟨h1, h2⟩ := C06_sample_is_configured _ _ _ hs
+      exact ⟨k, h1, h2, h⟩
+  · cases h
+
+/-- … and every configured hyperparameter can be returned: for a permutation draw of the right length
+    whose head is `k < len(config)` the method returns the `k`-th entry (no IndexError) -/
+theorem C06_source_translation_sample_total {κ ν : Type} (cfg : List (κ × ν)) (k : Nat) (rest : List Nat)
+    (hk : k < cfg.length) (hl : (k :: rest).length = cfg.length) :
+    HyperparameterConfig.sample cfg (k :: rest) = some cfg[k] := by
+  rw [gen_sample_eq, if_pos hl]
+  simp [sample, hk]
+
+end source_translation
+
 /-! ## non-vacuity -/
 
 /-- default factors, `lr`-like float parameter and an integer `batch_size` with bounds 8..512 -/
@@ -267,5 +361,12 @@ example :
     ((exPop.run .own true [.mutate 0 0 (3/4)]).agents.map (fun a => a.opts.map (·.groups))) =
       [[[3/2560, 3/2560]], [[1/1024, 1/1024]], [[1/1024, 1/1024]]] := by decide +kernel
 example : sample 2 [1, 0] = some 1 := by decide
+-- the translated methods on the same data
+example : HpMutGen.RLParameter.mutate exBs.lo exBs.hi exBs.shrink exBs.grow (toGen exBs.dtype) (some 64) 0
+    = some (51, some 51) := by decide +kernel
+example : HpMutGen.RLParameter.mutate exLr.lo exLr.hi exLr.shrink exLr.grow (toGen exLr.dtype) (some (1/64)) (3/4)
+    = some (1/64, some (1/64)) := by decide +kernel
+example : HpMutGen.HyperparameterConfig.sample [("lr", exLr), ("batch_size", exBs)] [1, 0]
+    = some ("batch_size", exBs) := by decide +kernel
 
 end HpMut
